@@ -5,14 +5,16 @@ Reads qtoggleserver/slaves/devices.py and qtoggleserver/slaves/ports.py of the t
   Gen/C12Gen.v   gen_master_attrs : list string       MASTER_ATTRS of slaves/ports.py (sorted)
   Gen/C13Gen.v   cfg_src : cfg                         which of the modelled variants the three statements have:
      value_push_has_body          apply_provisioning: does `self.api_call('PATCH', f'/ports/{...}/value', ...)` pass the pending
-                                  value as body (third positional argument or body=) or nothing
+                                  value as body (third positional argument or body=) and is it followed by
+                                  `port.push_remote_value(value)`, or neither
      port_update_keeps_pending    _handle_port_update: between the change-notification loop and
                                   `port.update_cached_attrs(attrs)` either nothing (the cache is replaced by what the slave sent)
                                   or exactly `attrs.update(provisioning_attrs)` followed by
                                   `if port.get_provisioning_value() is not None: attrs.pop('value', None)`
      device_update_keeps_pending  _handle_device_update: either `for name in attrs: if name in provisioning_attrs: ...;
                                   attrs.pop(name)` (pops from the dict it iterates) or a read-only loop followed by
-                                  `attrs.update(provisioning_attrs)`
+                                  `attrs.update(provisioning_attrs)`; and fetch_and_update_device: `update_cached_attrs(attrs)`
+                                  directly, or after `attrs.update(self.get_provisioning_attrs())` (both sites the same way)
 Closed list of shapes; anything else raises Untranslatable -> status 'untranslatable' (the check then looks for a failing input).
 """
 import ast
@@ -100,13 +102,26 @@ def value_push(fn):
     extra = set(kws) - {'timeout', 'body'}
     if extra:
         raise Untranslatable('apply_provisioning: unexpected keyword(s) %s in the value push' % sorted(extra))
+    # the try block around the call: either the call alone, or the call followed by port.push_remote_value(value)
+    tries = [n for n in ast.walk(guard) if isinstance(n, ast.Try) and any(c is call for c in ast.walk(n))]
+    if len(tries) != 1 or len(tries[0].body) not in (1, 2) or _is_call(tries[0].body[0], 'self.api_call') is not call:
+        raise Untranslatable('apply_provisioning: the value push is not the first statement of its own try block')
+    pushes = len(tries[0].body) == 2
+    if pushes and ast.unparse(tries[0].body[1]) != 'port.push_remote_value(value)':
+        raise Untranslatable('apply_provisioning: unexpected statement after the value push: %s' % ast.unparse(tries[0].body[1]))
     if len(call.args) == 2 and 'body' not in kws:
-        return False
-    if len(call.args) == 3 and 'body' not in kws and ast.unparse(call.args[2]) == 'value':
-        return True
-    if len(call.args) == 2 and 'body' in kws and ast.unparse(kws['body']) == 'value':
-        return True
-    raise Untranslatable('apply_provisioning: unexpected arguments of the value push: %s' % ast.unparse(call))
+        has_body = False
+    elif len(call.args) == 3 and 'body' not in kws and ast.unparse(call.args[2]) == 'value':
+        has_body = True
+    elif len(call.args) == 2 and 'body' in kws and ast.unparse(kws['body']) == 'value':
+        has_body = True
+    else:
+        raise Untranslatable('apply_provisioning: unexpected arguments of the value push: %s' % ast.unparse(call))
+    if has_body != pushes:
+        raise Untranslatable('apply_provisioning: the value push %s a body but %s the value as remote value afterwards (only '
+                             'the two consistent variants are modelled)' % ('has' if has_body else 'has no',
+                                                                            'queues' if pushes else 'does not queue'))
+    return has_body
 
 
 def port_update(fn):
@@ -165,6 +180,20 @@ def device_update(fn):
     raise Untranslatable('_handle_device_update: unexpected statements: %s' % ' ; '.join(ast.unparse(s) for s in mid))
 
 
+def fetch_device(fn):
+    """fetch_and_update_device -> bool: is the cache replacement preceded by attrs.update(self.get_provisioning_attrs())"""
+    body = fn.body
+    idx = [i for i, st in enumerate(body) if _is_call(st, 'self.update_cached_attrs') is not None]
+    if len(idx) != 1 or [ast.unparse(a) for a in _is_call(body[idx[0]], 'self.update_cached_attrs').args] != ['attrs']:
+        raise Untranslatable('fetch_and_update_device: expected one `await self.update_cached_attrs(attrs)`')
+    muts = [i for i, st in enumerate(body[:idx[0]]) if _mutates(st, 'attrs') and not isinstance(st, ast.Try)]
+    if not muts:
+        return False
+    if muts == [idx[0] - 1] and ast.unparse(body[idx[0] - 1]) == 'attrs.update(self.get_provisioning_attrs())':
+        return True
+    raise Untranslatable('fetch_and_update_device: attrs is modified in an unexpected way before update_cached_attrs')
+
+
 def master_attrs():
     tree = ast.parse(_src('qtoggleserver/slaves/ports.py'))
     for node in tree.body:
@@ -177,12 +206,20 @@ def master_attrs():
     raise Untranslatable('MASTER_ATTRS not found')
 
 
+def _both(a, b):
+    if a != b:
+        raise Untranslatable('_handle_device_update %s pending attributes but fetch_and_update_device %s (only the two '
+                             'consistent variants are modelled)' % ('keeps' if a else 'does not keep', 'does' if b else 'does not'))
+    return a
+
+
 def read_cfg():
     tree = ast.parse(_src('qtoggleserver/slaves/devices.py'))
     return {
         'value_push_has_body': value_push(_method(tree, 'Slave', 'apply_provisioning')),
         'port_update_keeps_pending': port_update(_method(tree, 'Slave', '_handle_port_update')),
-        'device_update_keeps_pending': device_update(_method(tree, 'Slave', '_handle_device_update')),
+        'device_update_keeps_pending': _both(device_update(_method(tree, 'Slave', '_handle_device_update')),
+                                             fetch_device(_method(tree, 'Slave', 'fetch_and_update_device'))),
     }
 
 
